@@ -146,6 +146,8 @@ type Method struct {
 	Stream string `json:"stream,omitempty"`
 	// SkipRequestBody: the HTTP request body is handed to the service as an io.ReadCloser (SkipRequestBodyEncodeDecode)
 	SkipRequestBody bool `json:"skip_request_body,omitempty"`
+	// Multipart: the HTTP request is multipart (MultipartRequest); designs with it are generated and compiled only (C01)
+	Multipart bool `json:"multipart,omitempty"`
 }
 
 // Mapped is "attribute[:wire name]".
